@@ -1327,8 +1327,16 @@ class ListNode(SyntaxNodeBase):
         if not new_vals:
             self._nodes = []
             return
+        own_ids = {id(node) for node in self}
         new_vals = self._keep_own_nodes(new_vals)
         new_vals_cache = {id(v): v for v in new_vals}
+        # The entries a shortcut may newly take in: those that are new to this list or whose value changed
+        # since the list was last rebuilt (read). An entry that stands unchanged stays what it was written
+        # as: '1 2r 1' is not turned into '1 3r', and a list none of whose values changed is written back
+        # as it was read.
+        self._fresh_ids = {
+            id(v) for v in new_vals if id(v) not in own_ids or self._has_new_value(v)
+        }
         # bind shortcuts to single site in new values
         for shortcut in self._shortcuts:
             for node in shortcut.nodes:
@@ -1337,6 +1345,8 @@ class ListNode(SyntaxNodeBase):
                     # a shortcut keeps the shape it has: one that holds a single node (a multiply written
                     # without a base of its own, continuing the shortcut before it) is bound to its product
                     shortcut._bound_as_product = len(shortcut.nodes) == 1
+                    # the entries it stood for so far: it may always take those again
+                    shortcut._bound_run = {id(n) for n in shortcut.nodes}
                     shortcut.nodes.clear()
                     break
         self._expand_shortcuts(new_vals, new_vals_cache)
@@ -1353,6 +1363,9 @@ class ListNode(SyntaxNodeBase):
                 self._nodes.append(node)
         for shortcut in self._shortcuts:
             shortcut._remember_interpolation()
+        for node in new_vals:
+            if isinstance(node, ValueNode):
+                node._listed_value = (node.value, node.is_negative)
         end = self._nodes[-1]
         # pop off final shortcut if it's a jump the user left off
         if (
@@ -1362,6 +1375,30 @@ class ListNode(SyntaxNodeBase):
         ):
             self._nodes.pop()
             self._shortcuts.pop()
+
+    @staticmethod
+    def _has_new_value(node):
+        """
+        Whether the value of the node changed since its list was last rebuilt (or, before that, since it was read).
+
+        :rtype: bool
+        """
+        if not isinstance(node, ValueNode):
+            return True
+        listed = getattr(node, "_listed_value", None)
+        if listed is None:
+            return node._value_changed
+        return listed != (node.value, node.is_negative)
+
+    def _may_take(self, shortcut, node):
+        """
+        Whether the shortcut may take the node in: one of the entries it stood for so far, or a fresh entry.
+
+        :rtype: bool
+        """
+        return id(node) in getattr(shortcut, "_bound_run", ()) or id(node) in getattr(
+            self, "_fresh_ids", ()
+        )
 
     def _expand_shortcuts(self, new_vals, new_vals_cache):
         """
@@ -1375,7 +1412,7 @@ class ListNode(SyntaxNodeBase):
         """
 
         def try_expansion(shortcut, value):
-            status = shortcut.consume_edge_node(
+            status = self._may_take(shortcut, value) and shortcut.consume_edge_node(
                 value, 1, i == last_end + 1 and last_end != 0
             )
             if status:
@@ -1387,7 +1424,9 @@ class ListNode(SyntaxNodeBase):
         def try_reverse_expansion(shortcut, i, last_end):
             if i > 1:
                 for value in new_vals[i - 1 : last_end : -1]:
-                    if shortcut.consume_edge_node(value, -1):
+                    if self._may_take(shortcut, value) and shortcut.consume_edge_node(
+                        value, -1
+                    ):
                         new_vals_cache[id(value)] = shortcut
                     else:
                         new_vals_cache[id(value)] = value
@@ -1400,6 +1439,7 @@ class ListNode(SyntaxNodeBase):
             nonlocal shortcut
             if value.value is None and shortcut is None:
                 shortcut = ShortcutNode(p=None, short_type=Shortcuts.JUMP)
+                shortcut._bound_run = {id(value)}
                 if shortcut.consume_edge_node(value, 1):
                     new_vals_cache[id(value)] = shortcut
 
@@ -1777,6 +1817,9 @@ class ShortcutNode(ListNode):
             if self._type is None:
                 raise ValueError("must use a valid shortcut")
             self._original = list(p)
+            # whether it was written with a first value of its own ('3.0 R'), or continues the shortcut
+            # before it ('... 3R R'): it is written back in the form it was read in
+            self._own_start = isinstance(p[0], ValueNode)
             if self._type == Shortcuts.REPEAT:
                 self._expand_repeat(p)
             elif self._type == Shortcuts.MULTIPLY:
@@ -2078,7 +2121,9 @@ class ShortcutNode(ListNode):
             for new_val in candidates:
                 if self._type == Shortcuts.LOG_INTERPOLATE:
                     new_val = 10**new_val
-                if math.isclose(new_val, node.value, rel_tol=rel_tol, abs_tol=abs_tol):
+                if math.isclose(
+                    new_val, node.value, rel_tol=rel_tol, abs_tol=self._interpolation_abs_tol()
+                ):
                     return True
             return False
         else:
@@ -2089,7 +2134,23 @@ class ShortcutNode(ListNode):
                 new_val = 10 ** (edge + direction * self._spacing)
             else:
                 new_val = edge + direction * self._spacing
-        return math.isclose(new_val, node.value, rel_tol=rel_tol, abs_tol=abs_tol)
+        return math.isclose(
+            new_val, node.value, rel_tol=rel_tol, abs_tol=self._interpolation_abs_tol()
+        )
+
+    def _interpolation_abs_tol(self, begin=None, end=None):
+        """
+        The absolute tolerance for a linearly interpolated value: the library's relative tolerance on the scale of
+        the interpolation. (A purely relative tolerance is meaningless for an interpolate that is 0: '4 9i -4'
+        passes through 4.4e-16.)
+
+        :rtype: float
+        """
+        if self._type != Shortcuts.INTERPOLATE:
+            return abs_tol
+        if begin is None:
+            begin, end = self._begin, self._end
+        return max(abs_tol, rel_tol * max(abs(begin), abs(end)))
 
     def consume_edge_node(self, node, direction, last_edge_shortcut=False):
         """
@@ -2128,7 +2189,7 @@ class ShortcutNode(ListNode):
         :rtype: str
         """
         carried = None
-        if leading_node is not None:
+        if leading_node is not None and not getattr(self, "_own_start", False):
             carried = getattr(leading_node, "_written_tail", None)
         temp = None
         if self._type == Shortcuts.JUMP:
@@ -2278,7 +2339,7 @@ class ShortcutNode(ListNode):
             base = base.value
         if isinstance(product, enum.Enum):
             product = product.value
-        if base is None or product is None or base == 0:
+        if base is None or product is None:
             return None
         if len(self._original) > 0 and "M" in self._original[-1]:
             m = "M"
@@ -2315,12 +2376,13 @@ class ShortcutNode(ListNode):
             begin = math.log(begin, 10)
             end = math.log(end, 10)
         spacing = (end - begin) / number
+        tolerance = self._interpolation_abs_tol(begin, end)
         for i, node in enumerate(nodes):
             if is_log:
                 new_val = 10 ** (begin + spacing * (i + 1))
             else:
                 new_val = begin + spacing * (i + 1)
-            if not self._is_close(new_val, node.value):
+            if not math.isclose(new_val, node.value, rel_tol=rel_tol, abs_tol=tolerance):
                 return False
         return True
 
